@@ -42,6 +42,19 @@ AUTO_PATH_SPECS = [
 ]
 
 
+def _residual_closures(it, lo, hi, edits):
+    """number of closure expressions of item `it` inside [lo,hi) that no replacing edit covers (they stay verbatim in the unit)"""
+    n = 0
+    for c in it.get("closures", []):
+        a, b = c["span"]
+        if a < lo or b > hi:
+            continue
+        covered = any(e[0] < e[1] and e[0] <= a and b <= e[1] for e in edits)
+        if not covered:
+            n += 1
+    return n
+
+
 class Undecided(Exception):
     """The machinery cannot apply (lost anchor, missing item, unsupported construct).
     Never reported as a violation."""
@@ -758,6 +771,9 @@ class Unit:
         self._note_emitted(it["name"])
         rec = dict(name=path, rel=sf.rel, line=sf.line_of(it["sig"][0]), rules=sorted(set(applied)),
                    gen_name=it["name"], external_body=bool(external_body or drop_body), under_contract=under_contract and not (external_body or drop_body) and not is_trait_sig)
+        # closures left verbatim in the verified body: Verus knows nothing about what an un-annotated closure returns, so an
+        # obligation of this function that fails may fail for want of a closure contract (check.py: UNDECIDED, not VIOLATION)
+        rec["opaque_closures"] = 0 if (external_body or drop_body or is_trait_sig) else _residual_closures(it, it["span"][0], it["span"][1], edits)
         if is_trait_sig:
             self.rule("E1", "trait fn %s (declaration)  <- %s:%d" % (path, sf.rel, rec["line"]))
         elif external_body or drop_body:
@@ -1031,7 +1047,7 @@ class Unit:
         line = sf.line_of(lo)
         self.rule("E5", "%s: bytes %d..%d (lines %d..%d) lifted into fn %s(%s) %s" % (path, lo, hi, line, sf.line_of(hi), name, params, what))
         self.functions.append(dict(name=path + "[" + name + "]", rel=sf.rel, line=line, rules=["E5"], gen_name=name,
-                                   external_body=False, under_contract=True))
+                                   external_body=False, under_contract=True, opaque_closures=_residual_closures(it, lo, hi, edits)))
 
     # ---- render -----------------------------------------------------------
     def render(self, header_extra=""):
